@@ -6,6 +6,7 @@ import collections
 
 from harness import common as C
 from harness import fw, progen, tracecmp
+from harness import stmt_wire as SW
 
 META_PART = "statement layer: Coq model of declaration/assignment/control-flow translation (Lang/Stmt*.v) with a simulation theorem; tie = IR of the real parser vs model on generated programs; oracle = firmware trace vs CPython trace"
 
@@ -57,6 +58,59 @@ def run_pair(srcs, inputs, loops):
     return out
 
 
+def ir_correspondence(ctx, progs):
+    """Lang.Transl.transl (extracted) vs the IR of the real parse() on the same programs."""
+    exe = ctx.exes.get("C01_stmt")
+    if exe is None:
+        return {"ir_cases": 0}
+    cases = []
+    for p in progs:
+        if p.get("funcs"):
+            continue                      # helper functions are outside the statement model
+        an = SW.Annotator()
+        pre = an.stmts(p["pre"])
+        main = an.stmts(p["main"]) if p["main"] is not None else None
+        if an.ok:
+            cases.append((p, an, pre, main))
+    if not cases:
+        return {"ir_cases": 0}
+    impl = C.run_impl("c01_stmt_impl.py", {"cases": [{"src": progen.render(p), "exprs": an.exprs} for p, an, _, _ in cases]})
+    meta = impl
+    wires = [[SW.wire_stmts(pre, r["consts"]), [] if main is None else [SW.wire_stmts(main, r["consts"])]]
+             for (p, an, pre, main), r in zip(cases, impl["results"])]
+    outs = C.run_model(exe, wires)
+    st = collections.Counter()
+    for (p, an, pre, main), r, o in zip(cases, impl["results"], outs):
+        src = progen.render(p)[len(progen.HEADER):]
+        if "reject" in r["ir"]:
+            st["impl-reject"] += 1
+            if o != [1]:
+                ctx.disagree("transl: real parser rejects, model accepts", src, "accepted", r["ir"])
+            continue
+        if o == [1] or o == [2]:
+            st["model-reject"] += 1
+            ctx.disagree("transl: model rejects/undecodable, real parser accepts", src, o, "accepted")
+            continue
+        ct = r["ctexts"]
+        try:
+            mg = [[SW._txt(g[0]), meta["cpp"][SW.TYN[g[1]]], SW.render_cexpr(g[2], ct, meta)] for g in o[1]]
+            ms = SW.canon_promoted(SW.model_shape(o[2], ct, meta, an.exprs))
+            ml = SW.canon_promoted(SW.model_shape(o[3], ct, meta, an.exprs))
+        except Exception as e:  # noqa
+            ctx.disagree(f"transl: cannot render model IR ({type(e).__name__})", src, None, None)
+            continue
+        ig, is_, il = r["ir"]["globals"], SW.canon_promoted(r["ir"]["setup"]), SW.canon_promoted(r["ir"]["loop"])
+        if sorted(mg) != sorted(ig) or ms != is_ or ml != il:
+            st["DIFF"] += 1
+            first = next(((a, b) for a, b in zip(ms + ml, is_ + il) if a != b), None)
+            ctx.disagree("transl: IR of the model differs from the IR of the real parser", src,
+                         {"globals": mg, "first_differing_node": first and first[0]},
+                         {"globals": ig, "first_differing_node": first and first[1]})
+        else:
+            st["equal"] += 1
+    return {"ir_cases": len(cases), "ir_status": dict(st)}
+
+
 def run_unit(ctx: C.Ctx):
     rng = ctx.rng
     thorough = ctx.tier == "thorough"
@@ -93,8 +147,9 @@ def run_unit(ctx: C.Ctx):
         for i, r in zip(ids, wres):
             if r["status"] in ("DIFF", "nocompile"):
                 ctx.known(f"{i}: {listed[i]['what']}")
+    ir = ir_correspondence(ctx, progs)
     return {
-        "evaluations": n, "programs_by_status": dict(stats),
+        "evaluations": n + ir["ir_cases"], "programs_by_status": dict(stats), "ir_correspondence": ir,
         "distinct_nontrivial": len({s for s, r in zip(srcs, res) if r["status"] == "equal" and len(r["py"]) >= 3}),
         "samples": [srcs[0][len(progen.HEADER):], srcs[-1][len(progen.HEADER):]],
         "rule": "seeded programs from harness/progen.py over 6 feature sets (core ints; +floats; +helper functions; +tuple/swap; all; first assignment inside branches), N in 0..3 loop passes, scripted analog/digital inputs; non-trivial = both sides ran and the common trace has >= 3 events",
